@@ -7,6 +7,8 @@ import ZvtVerif.Generated
 import ZvtVerif.Sequence
 import ZvtVerif.Client
 import ZvtVerif.WriteFile
+import ZvtVerif.Spec.Layout
+import ZvtVerif.Spec.RefCodec
 namespace Zvt.Driver
 open Zvt
 
@@ -67,13 +69,14 @@ end
 /-! ### value parsing (driver-only op `enc`) : tokens -/
 
 def tokenize (s : String) : List String :=
+  let flush (cur : List Char) (acc : List String) : List String :=
+    if cur.isEmpty then acc else String.ofList cur.reverse :: acc
   let rec go (cs : List Char) (cur : List Char) (acc : List String) : List String :=
-    let flush := if cur.isEmpty then acc else String.ofList cur.reverse :: acc
     match cs with
-    | [] => flush.reverse
+    | [] => (flush cur acc).reverse
     | c :: r =>
-      if c = ' ' then go r [] flush
-      else if c = '(' ∨ c = ')' ∨ c = '[' ∨ c = ']' ∨ c = '{' ∨ c = '}' then go r [] (String.ofList [c] :: flush)
+      if c = ' ' then go r [] (flush cur acc)
+      else if c = '(' ∨ c = ')' ∨ c = '[' ∨ c = ']' ∨ c = '{' ∨ c = '}' then go r [] (String.ofList [c] :: flush cur acc)
       else go r (c :: cur) acc
   go s.toList [] []
 
@@ -233,6 +236,16 @@ def opParse (e : EnumDef) (b : Bytes) : String :=
 def opEnc (s : StructDef) (toks : List String) : String :=
   match parseVal (.struct s.fields) toks with
   | some (v, []) => resBytes (encodeCmd s v)
+  | _ => "bad-op"
+
+/-- `ref TYPE VALUE`: the reference encoder of the format description (Spec/RefCodec.lean) on the FROZEN layout
+table; answers `ok HEX` or `not-representable`. -/
+def opRef (s : StructDef) (toks : List String) : String :=
+  match parseVal (.struct s.fields) toks with
+  | some (v, []) =>
+    match Ref.encode s v with
+    | some b => "ok " ++ hexOf b
+    | none => "not-representable"
   | _ => "bad-op"
 
 def errKindBare (e : Err) : String := errName e
@@ -484,6 +497,10 @@ def handle (line : String) : String :=
     match parseHex input, (if script = "." then some [] else parseItems script ",") with
     | some i, some items => opSeq name i items
     | _, _ => "bad-op"
+  | "ref" :: ty :: rest =>
+    match Spec.shipped.find? (·.name = ty) with
+    | some s => opRef s (tokenize (" ".intercalate rest))
+    | none => "bad-op"
   | "enc" :: ty :: rest =>
     match findStruct ty with
     | some s => opEnc s (tokenize (" ".intercalate rest))
